@@ -41,7 +41,7 @@ class Tape:
 
 
 def secrets(rng):
-    base = ["", "a", "password", "pässwörd-𝄞", "x" * 10000, "pass", "passw", "password1", " password", "PASSWORD",
+    base = ["", "a", "password", "pässwörd-𝄞", "x\u00b2", "x2", "\ufb01le", "file", "e\u0301", "\u00e9", "x" * 10000, "pass", "passw", "password1", " password", "PASSWORD",
             "user:pass", "root:toor", ":", "a:b", "abcd:efgh", "QUJD:REVG", "salt:digest", "héllo: wörld"]
     base += ["".join(rng.choice("abc é0") for _ in range(rng.randint(1, 30))) for _ in range(4)]
     out = []
@@ -71,7 +71,7 @@ def run(ctx):
         fld = schema._fields["pw"]
         secs = secrets(rng)
         if not ctx.thorough():
-            secs = secs[:10] + rng.sample(secs[10:], min(3, len(secs) - 10))
+            secs = secs[:16] + rng.sample(secs[16:], min(3, len(secs) - 16))
         for p in secs:
             cfg = schema()
             with Tape(rng) as tp:
@@ -97,7 +97,9 @@ def run(ctx):
             reqs.append({"cmd": "digest.create", "alg": alg, "plaintext": pb.hex(), "tape": [tp.log[0].hex()]})
             pend.append(("create", case, {"salt": dv.salt.hex(), "digest": dv.digest.hex()}))
             # other secrets must fail
-            for q in rng.sample(secs, 3) + ([p[:-1], p + "x", p.upper()] if isinstance(p, str) and p else []):
+            import unicodedata
+            twins = [unicodedata.normalize(form, p) for form in ("NFC", "NFD", "NFKC", "NFKD")] if isinstance(p, str) else []
+            for q in rng.sample(secs, 3) + ([p[:-1], p + "x", p.upper()] if isinstance(p, str) and p else []) + [t for t in twins if t != p]:
                 if as_bytes(q) == pb:
                     continue
                 c2 = dict(case, other=q if isinstance(q, str) else {"bytes": q.hex()})
